@@ -54,8 +54,25 @@ pub fn run_with(sc: &Scenario, progs0: Progs, reduced: bool) -> String {
                     writeln!(out, "SNAPSHOT PANIC").unwrap();
                     return out;
                 }
-                Ok(mc) => {
+                Ok(mut mc) => {
                     writeln!(out, "SNAPSHOT").unwrap();
+                    // implementation-only lines for the C15 monitor: the simulator's pending timers (fire time, now)
+                    // and the timers of the snapshot (remaining delay), each in its own order
+                    {
+                        use anysystem::events::TimerFired;
+                        let now = s.time();
+                        for e in s.sim().dump_events() {
+                            if let Some(t) = e.data.downcast_ref::<TimerFired>() {
+                                writeln!(out, "XSIMT {} {} {} {}", num(&t.proc), num(&t.timer), e.time.to_bits(), now.to_bits()).unwrap();
+                            }
+                        }
+                        let st = mc.verif_system().verif_get_state();
+                        for (_, ev) in st.events.verif_events() {
+                            if let anysystem::mc::McEvent::TimerFired { proc, timer, timer_delay } = ev {
+                                writeln!(out, "XSNAPT {} {} {}", num(&proc), num(&timer), timer_delay.into_inner().to_bits()).unwrap();
+                            }
+                        }
+                    }
                     let loc: std::collections::HashMap<String, String> = s.network().proc_locations().clone();
                     let node_of = |p: u64| loc.get(&pname(p)).map(|n| num(n)).unwrap_or(0);
                     let rest: Vec<String> = mc_lines.iter().filter(|l| !l.starts_with("CLOCK")).cloned().collect();
